@@ -230,6 +230,9 @@ class SimFS:
                 raise oserr(errno.EEXIST, path)
             if node.kind == "dir":
                 raise oserr(errno.EISDIR, path)
+            # an open file that others may unlink, truncate or fill meanwhile is
+            # in-flight state too: the next operation of this process is a hot point
+            self.mark_hot(self.current_pid())
             if flags & real_os.O_TRUNC:
                 del node.data[:]
             self._log("open", path)
